@@ -1,5 +1,6 @@
 """Ltcp (layers/tcp.go sub-check serving C19 C05 C06 C07 C01) configuration for ./check"""
 CONF = {
+    'coq_sample': 15,   # cases re-evaluated inside Coq by vm_compute against the extracted runner's output
     'interesting': ['truncated-prefix-of-valid', 'option-length-extreme', 'residue-options', 'residue-padding',
                     'pad-residue', 'odd-payload', 'dirty-buffer', 'no-fixlengths', 'error-after-add', 'ge2-options'],
     'rule': 'TCP headers built field by field by the harness with 0..5 options, every truncation length; data offset 0..15 against '
